@@ -483,6 +483,11 @@ class CFG:
                     out.append((n, pol))
         return out
 
+    def unconditional(self, nid, blocked_edges=()):
+        """nid lies on every path from the entry to the normal exit: no single edge guards it and no
+        combination of branches (`if a and b: return`) leads round it"""
+        return not self.guards(nid, blocked_edges) and self.all_paths_pass(self.entry, self.exit, [nid], blocked_edges)
+
     def nodes_of(self, astnode):
         return [n for n in self.live_nodes() if n.ast is astnode or astnode in n.exprs]
 
